@@ -147,6 +147,26 @@ def compile_bytes(data, route):
     return ('exit', r.exit_code, written)
 
 
+def run_in_other_process(text, via):
+    """the text as the only source of a real command-line process: (exit status, standard output)"""
+    import subprocess
+    import sys
+    import tempfile
+    env = dict(os.environ, PYTHONPATH=os.path.join(impl.REPO, 'src'), PYTHONDONTWRITEBYTECODE='1', PYTHONIOENCODING='utf-8')
+    data = text.encode('utf8', 'surrogatepass')
+    if via == 'stdin-pipe':
+        p = subprocess.run([sys.executable, '-X', 'int_max_str_digits=0', '-m', 'yldprolog.compiler', '-'], input=data, stdout=subprocess.PIPE, stderr=subprocess.DEVNULL, env=env)
+        return p.returncode, p.stdout.decode('utf8', 'replace')
+    fd, path = tempfile.mkstemp(prefix='verif-c10-O-', suffix='.prolog')
+    try:
+        with os.fdopen(fd, 'wb') as f:
+            f.write(data)
+        p = subprocess.run([sys.executable, '-O', '-m', 'yldprolog.compiler', path], stdout=subprocess.PIPE, stderr=subprocess.DEVNULL, env=env)
+        return p.returncode, p.stdout.decode('utf8', 'replace')
+    finally:
+        os.unlink(path)
+
+
 def compile_via_command_line(text, position):
     """the text as one of three sources of one command-line run (the others are the valid programs `cl_first.` and
     `cl_last.`): returns (exit status, text of the output file); None when the text cannot be stored as UTF-8"""
@@ -209,7 +229,7 @@ class C10(Prop):
             'lexer/parser error and reaches EOF (disagreement = harness error). One case in six also arrives as the new '
             'content of a file compiled before in the same process (then a valid program of the same size and '
             'modification time) through compile_prolog_from_file, one in six as one of three sources of a command-line '
-            'run (first, middle or last; exit status 0 for a text outside the grammar = violation); one case in 24 is a valid program with one byte inserted that makes the file invalid UTF-8 (outside comments and quoted atoms), through compile_prolog_from_file, a command-line source or standard input. Non-trivial = text outside the grammar '
+            'run (first, middle or last; exit status 0 for a text outside the grammar = violation); one case in 24 is a valid program with one byte inserted that makes the file invalid UTF-8 (outside comments and quoted atoms), through compile_prolog_from_file, a command-line source or standard input. Once per run: 24 (thorough 240) texts - half of them behind a table of 400-2500 facts (14-90 KB) - go through real command-line processes: as standard input on a pipe, or as a file under python -O; exit status 0 for a text outside the grammar, or definitions missing from the output of a valid one = violation. Non-trivial = text outside the grammar '
             '(must-reject case); distinct = SHA-1 of the text.')
     assumptions = ['CPython 3.12 of /venv', 'independent recogniser, cross-checked on every generated text against ANTLR\'s own verdict',
                    'a valid program may be refused by the compiler (C10 is one-sided)']
@@ -336,6 +356,19 @@ class C10(Prop):
                     return FAIL('accepted-outside-grammar-on-command-line',
                                 {'text': text, 'edits': case.get('edits'), 'position_among_3_sources': case.get('position', 0),
                                  'exit_status': 0, 'defs_in_output': defs_in(r[1])})
+        if case.get('via') in ('optimised-interpreter', 'stdin-pipe'):
+            r = run_in_other_process(text, case['via'])
+            classes.append('also-' + case['via'])
+            if r[0] == 0 and not inlang:
+                return FAIL('accepted-outside-grammar:' + case['via'],
+                            {'text_length': len(text), 'text_end': text[-300:], 'edits': case.get('edits'), 'exit_status': 0,
+                             'scenario': 'python -O -m yldprolog.compiler <file>' if case['via'] == 'optimised-interpreter' else 'python -m yldprolog.compiler - with the text on a pipe',
+                             'last_defs_in_output': (defs_in(r[1]) or [])[-3:]})
+            if r[0] == 0 and inlang:
+                exp = expected_defs(text)
+                got = defs_in(r[1])
+                if exp is not None and got is not None and sorted(set(got)) != exp:
+                    return FAIL('definitions-differ-from-clauses:' + case['via'], {'text_length': len(text), 'text_end': text[-300:], 'missing': sorted(set(exp) - set(got))[:5]})
         try:
             code = impl.compile_text(text)
         except Exception as e:      # noqa
@@ -367,7 +400,40 @@ class C10(Prop):
         return out
 
     def extra_checks(self, tier, seed):
-        return self.fuzz_campaign(tier, seed)
+        return self.other_processes(tier, seed) + self.fuzz_campaign(tier, seed)
+
+    def other_processes(self, tier, seed):
+        """the command line as real processes: under python -O (assert statements are not executed), and with a source
+        longer than any buffer arriving on a pipe as standard input"""
+        import hashlib
+        from concurrent.futures import ThreadPoolExecutor
+        from ..gen import Src
+        cases = []
+        n = 24 if tier == 'quick' else 240
+        for r in range(n):
+            src = Src(hashlib.sha256(('%d/%d/c10proc' % (seed, r)).encode()).digest() * 16)
+            text = gen.program_text(gen.gen_program(src, CFG)[1], src)
+            if r % 4 == 0:
+                # a long table (14-90 KB) in front: longer than a pipe buffer or an io buffer
+                width = src.pick([400, 1000, 2500])
+                if src.n(2):
+                    text = ''.join('entry(k%05d, value_%05d, [a, b, c]).\n' % (i, i) for i in range(width)) + text
+                else:
+                    # fixed-width records of 64 bytes: every power-of-two offset is a clause boundary
+                    line = 'record(k%05d, value_%05d, [a, b, c], fixed_width_record_pad).\n'
+                    line = line.replace('_pad', '_pad' + 'x' * (64 - len(line % (0, 0))))
+                    assert len(line % (0, 0)) == 64
+                    text = ''.join(line % (i, i) for i in range(width)) + text
+            tail = src.pick(['oops( .\n', ') x.\n', "'unterminated\n", 'last(a)\n', 'é.\n', '. .\n', ',\n', ''])
+            kinds = ['appended:' + repr(tail)] if tail else []
+            if r % 4 != 0 and src.n(2):
+                text, kinds = mutate_text(src, text)
+                tail = ''
+            cases.append({'text': text + tail, 'edits': kinds + (['long-table'] if r % 4 == 0 else []),
+                          'via': 'stdin-pipe' if r % 4 == 0 or r % 4 == 1 else 'optimised-interpreter'})
+        with ThreadPoolExecutor(8) as ex:
+            outs = list(ex.map(self.decide, cases))
+        return list(zip(cases, outs))
 
 
 PROP = C10()
